@@ -85,7 +85,12 @@ UNIT = dict(
                    "r is Err ==> r->Err_0.line == line"], props=["C08", "C13"]),
         m("push_filter_frame", ret="r", requires=WF + ["filter.num_locals <= 0xffff_ffff"],
           ensures=["vm_wf_nosp(final(self))", "same_shape(old(self), final(self))", "r is Ok ==> vm_wf(final(self))"]),
-        m("pop_filter_frame", ret="r", requires=WF + ["old(self).frames_index >= 2"], ensures=["vm_wf_nosp(final(self))", "same_shape(old(self), final(self))"]),
+        m("pop_filter_frame", ret="r", requires=WF + ["old(self).frames_index >= 2"],
+          ensures=["vm_wf_nosp(final(self))", "same_shape(old(self), final(self))",
+                   # C06: the filter's verdict is the documented truthiness of the value the pattern left on the stack
+                   "r matches Ok(b) ==> old(self).sp >= 1 && b == !is_falsey_spec(*old(self).stack@[old(self).sp - 1])"],
+          props=["C08", "C06"],
+          rewrites=[dict(rule="R3", re=r"(\w+)\.is_falsey\(\)", to=r"obj_is_falsey(&\1)", expect=1, why="Object::is_falsey behind its contract (ops/C06 harness + uninterpreted spec)")]),
         m("build_array", ret="r", requires=["vm_wf(self)", "start_index <= end_index <= self.sp"],
           ensures=["r@ =~= self.stack@.subrange(start_index as int, end_index as int)"], props=["C08", "C04"],
           loops={0: dict(invariant=["vm_wf(self)", "start_index <= end_index <= self.sp", "start_index <= i",
